@@ -120,7 +120,7 @@ def name_dispatch(F):
     # a helper of `imports` that takes the *function* id locates the entry by position among the function imports, and
     # position and id part ways once an import was added after local functions or a function was converted
     n_imp = 0
-    for x in walk(fn["body"]):
+    for owner, x in [(g, y) for g in F.find_fns(self_adt="Module") if g.get("body") is not None and (g.get("self_adt") or "").endswith("module::Module") for y in walk(g["body"])]:
         if x.get("k") == "MethodCall" and (place_path(x["recv"]) or "") == "self.imports":
             cs = F.by_path.get(x.get("inst") or x.get("callee") or "") or []
             if len(cs) != 1:
@@ -134,8 +134,8 @@ def name_dispatch(F):
             okx = by_iid and not by_fid
             r.ob(okx, {"import entry addressed by": "ImportsID" if okx else ("FunctionID (position among function imports)" if by_fid else "?")})
             if not okx:
-                r.violate("%s | import entry by function id" % fn["path"], F.loc(fn, x),
-                          "set_fn_name names the import entry through `imports.%s`, which takes the function id and counts function imports to find the entry: after an import is added behind local functions, or a local function is converted to an import, the function's id is not its position among the imports and another import (or none) is named — the recorded `import_id` is the only reliable address" % x["method"])
+                r.violate("%s | import entry by function id" % owner["path"], F.loc(owner, x),
+                          "%s names the import entry through `imports.%s`, which takes the function id and counts function imports to find the entry: after an import is added behind local functions, or a local function is converted to an import, the function's id is not its position among the imports and another import (or none) is named — the recorded `import_id` is the only reliable address" % (owner["name"], x["method"]))
     r.count("import_entry_namings", n_imp)
     # the local-name and import-name setters dispatch on kind
     for nm in ("set_local_fn_name", "set_imported_fn_name"):
@@ -459,6 +459,22 @@ def builder_flow(F):
     r.ob(ok)
     if not ok:
         r.violate("%s | push_op" % po["path"], F.loc(po), "Body::push_op does not push once at the end and bump num_instructions")
+    # … and push_op is the only place a body's instruction list changes length: `num_instructions` is what
+    # get_func_metadata hands the iterators, so a list grown (or shrunk) behind its back is encoded in full but walked short
+    GROW = ("push", "extend", "insert", "append", "splice", "remove", "truncate", "pop", "clear", "drain", "retain", "extend_from_slice", "resize", "swap_remove", "split_off")
+    n_len = 0
+    for g in F.fns:
+        if g.get("body") is None or g is po:
+            continue
+        for c in walk(g["body"]):
+            if c.get("k") == "MethodCall" and c["method"] in GROW:
+                pp = place_path(c["recv"]) or ""
+                if pp.endswith("body.instructions") or (pp == "self.instructions" and (g.get("self_adt") or "").endswith("types::Body")):
+                    n_len += 1
+                    r.ob(False, {"fn": g["path"], "resizes": pp})
+                    r.violate("%s | %s.%s" % (g["path"], pp, c["method"]), F.loc(g, c),
+                              "%s changes the length of a body's instruction list with `%s.%s(..)` instead of going through Body::push_op: `num_instructions`, which the iterators take their bounds from, is not adjusted — the function is encoded in full but its last instructions are never visited" % (g["name"], pp, c["method"]))
+    r.ob(True, {"instruction-list resizes outside Body::push_op": n_len})
     return r
 
 
